@@ -289,7 +289,7 @@ class AuthorizationServer:
 
         try:
             grant = self.get_authorization_grant(request)
-        except UnsupportedResponseTypeError as error:
+        except OAuth2Error as error:
             return self.handle_error_response(request, error)
 
         try:
